@@ -297,3 +297,11 @@ func shorts(vs []*big.Int) string {
 	}
 	return s + "]"
 }
+
+// chk counts one evaluation of op (per-operation evidence) and records a violation under key when !ok.
+func chk(c *mon.Ctx, op, key string, ok bool, detail func() string) {
+	c.Eval(op, 1)
+	if !ok {
+		c.Fail(key, "%s", detail())
+	}
+}
